@@ -252,7 +252,12 @@ class Life:
                 ctx.probe("dry_ok")
                 continue
             # a successful real update: every slot must show the new version, nothing else may change
+            nv0 = len(ctx.violations)
             ok = w.walk(ctx, res.after, new_state, new_text2, state, text, base_facts)
+            if legacy.is_legacy(pattern):
+                for v in list(ctx.violations[nv0:]):
+                    # C20: legacy slots (incl. the derived {pep440_version}) are rewritten and found again
+                    ctx.violation("C20", "legacy_" + v["kind"], dict(v["facts"], legacy=True), v["detail"])
             ctx.nontriv(abstract + ("walked", ok))
             ctx.probe("real_update_ok")
             if not ok:
